@@ -92,6 +92,7 @@ class Contract:
     properties = ()
     doc = ''
     deductive = True        # False: runtime contract only (bounded stand-in), with `reason`
+    expr_overrides = False  # True: expr_override() is consulted for every expression of the verified body
     raises_exact = True     # False: `raises` lists what the function *may* raise (no "must not raise otherwise")
 
     def __init__(self):
@@ -148,6 +149,11 @@ class Contract:
 
     def exc_proof(self, p, a, exc, case):
         p.qed()
+
+    def expr_override(self, I, node, fr):
+        """Library contracts that are keyed to an expression *shape* of the verified body (matched on the unparsed
+        source text): return a value, or NotImplemented."""
+        return NotImplemented
 
     def opaque_calls(self):
         """{callable: handler(I, args, kwargs, node)}: calls the verified body makes that are treated as opaque,
